@@ -195,6 +195,20 @@ func (ld *Loader) expandSweeps(sp *Specs) {
 			}
 			ct.SweepProps = append(ct.SweepProps, sw.Prop)
 		}
+		for _, cf := range sp.CtxFlowFiles {
+			if !strings.HasSuffix(file, "/"+cf.File) || len(ctxParams(fn)) == 0 {
+				continue
+			}
+			ct := sp.Contracts[k]
+			if ct == nil {
+				ct = &Contract{Key: k, Pkg: fn.Pkg.Pkg.Path(), Loops: map[int]*LoopSpec{}, Where: cf.File, Thin: true}
+				sp.Contracts[k] = ct
+			}
+			if ct.External || len(ct.CtxFlow) > 0 {
+				continue
+			}
+			ct.CtxFlow = append(ct.CtxFlow, &Clause{Label: "caller_context_passed_on", Src: "ctxflow", Where: "sweep.spec (ctxflowfile " + cf.File + ")", Props: []string{cf.Prop}})
+		}
 		for _, nf := range sp.NoCallFiles {
 			if !strings.HasSuffix(file, "/"+nf.File) {
 				continue
